@@ -203,6 +203,13 @@ func run(seed int64, n int, dir string, _ []string) {
 	}
 	lap("flags")
 
+	// ---- a file held open FOR UPDATE by the transaction and read as an inline table object by every worker (held.go) ----
+	g3 := hc.NewGen(seed*104729 + 25)
+	for r := 0; r < 1+n/1500; r++ {
+		runHeld(g3, o, scratch, r)
+	}
+	lap("held")
+
 	// ---- same program, every --cpu value, twice: results and written files must be identical ----
 	rounds := n / 150
 	if rounds < 2 {
